@@ -32,6 +32,12 @@ add('C14',
     'Lean 4 proof (termination measure over the run loop) + differential correspondence of the scheduler model + trace-checker oracle on real runs',
     'DESIGN.md section 5 C14')
 
+add('C20',
+    'Lean 4 theorems over models of the SQLite UDF aggregates and of the Range CTE: Range(n) is exactly 0..n-1 (empty for n<=0) for every integer n; ArgMinK returns the args of the k smallest rows in order for every input list without value ties and every k>=1, unlimited ArgMin (Array) for every list; both are invariant under every permutation of the input rows; a non-positive limit raises. ArgMax/ArgMaxK, the JSON-list built-ins and arithmetic are tied by correspondence/oracle only (not theorems yet). Tie: UDF classes called in-process after every prefix of every permutation vs the Lean driver, Range template on SQLite vs rangeCte. Oracle: every listed built-in through the real pipeline on SQLite vs independent Python one-liners over small domains (exhaustive in thorough), aggregates in-process, through SQL and through compiled rules over all permutations of the rows.',
+    'Trusted: Lean kernel + standard axioms; SQLite JSON1/arithmetic validated by execution; heap layout abstracted to the kept multiset (root = extreme tuple), tied by prefix-wise correspondence. Negative list indices are outside the documented domain. One defect repaired (fix: Set aggregate sorted).',
+    'Lean 4 proof (K-buffer invariant by induction over rows, sorted-permutation uniqueness, CTE unrolling) + differential correspondence + reference one-liner oracle on SQLite',
+    'DESIGN.md section 5 C20')
+
 ALL = ['C%02d' % i for i in range(1, 21)]
 
 def main():
